@@ -218,8 +218,15 @@ output_instance(std::ostream &out, int indent_level, CPPScope *scope,
 
   std::string bracketsstr = brackets.str();
 
-  _element_type->output_instance(out, indent_level, scope, complete,
-                                 prename, name + bracketsstr);
+  if (prename.empty()) {
+    _element_type->output_instance(out, indent_level, scope, complete,
+                                   prename, name + bracketsstr);
+  } else {
+    // A pointer or reference to an array: the declarator operators bind to
+    // the name first, so they need parentheses, as for a function type.
+    _element_type->output_instance(out, indent_level, scope, complete,
+                                   "", "(" + prename + name + ")" + bracketsstr);
+  }
 }
 
 /**
